@@ -292,4 +292,22 @@ WellLinkedD(p, m, asBuilt) ==
         /\ ReturnsOk(p, m)
         /\ m.verb \in SupportedVerbs
 WellLinked(p, m) == WellLinkedD(p, m, FALSE)
+
+\* what the validators AS CODED accept: the recorded deviations from WellLinked, each by name (known_findings.json) -
+\*   linker-gaps              an un-aliased @Path need not correspond to a placeholder            (WellLinkedD(.., TRUE))
+\*   primitive-body-rejected  a @Body parameter of a primitive type is rejected (a rule the property does not state)
+\*   map-param-accepted       a non-body parameter of type map[string]T passes
+\* The session machine run against real traces (PipelineConform.tla) predicts acceptance with this variant.
+BodyPrimitive(p, m) == \E j \in ParamAnns(m) : m.anns[j].kind = "Body" /\ \E i \in NonCtx(m) : m.sig[i].name = m.anns[j].value /\ Deref(m.sig[i].type) \in PrimTypes \cup {"time.Time"}
+MapAsPrim(m) == [m EXCEPT !.sig = [i \in DOMAIN m.sig |-> IF IsMap(Deref(m.sig[i].type)) /\ (\E j \in ParamAnns(m) : m.anns[j].value = m.sig[i].name /\ m.anns[j].kind # "Body")
+                                                            THEN [m.sig[i] EXCEPT !.type = "string"] ELSE m.sig[i]]]
+\*   late-alias-error         a malformed 'name' property on an annotation other than @Path is not a validation error: the route
+\*                            passes validation and the command fails later, while the metadata is reduced
+StripRaw(m) == [m EXCEPT !.anns = [j \in DOMAIN m.anns |-> IF m.anns[j].kind # "Path" /\ "rawProps" \in DOMAIN m.anns[j]
+                                                          THEN [k \in DOMAIN m.anns[j] \ {"rawProps"} |-> m.anns[j][k]] ELSE m.anns[j]]]
+LateAliasError(m) == \E j \in DOMAIN m.anns : m.anns[j].kind \in {"Query", "Header", "FormField", "Body"} /\ "rawProps" \in DOMAIN m.anns[j]
+WellLinkedAsCoded(p, m) == WellLinkedD(p, MapAsPrim(StripRaw(m)), TRUE) /\ ~BodyPrimitive(p, m)
+\* path parameters documented for a route = its @Path wire names; the placeholders of its full path must be exactly those
+PathParamsMatch(p, m) == LET c == CtrlOf(p, m) IN
+                         {WireName(m.anns[i]) : i \in PathAnns(m)} = Range(Placeholders(FullText(c, m)))
 =============================================================================
